@@ -59,6 +59,8 @@ def run_groups(V, groups, wd, per_batch=8, variant="rel", timeout=300, workers=1
             nskip = sum(1 for x in res.guidetree.prints if x.startswith('<<"KVSKIP"'))
             V.extra["upgma_trees_compared_with_model"] = V.extra.get("upgma_trees_compared_with_model", 0) + sum(1 for x in open(os.path.join(bwd, "t.ndjson")) if x.startswith('{"e":"Tree"') and 2 <= json.loads(x).get("n", 99) <= 8) - nskip
             V.extra["distance_matrices_rederived"] = V.extra.get("distance_matrices_rederived", 0) + sum(1 for x in res.guidetree.prints if x.startswith('<<"KVDM"'))
+            for key, tag in (("anchor_selections_checked", '<<"KVANCH"'), ("anchor_distance_matrices_rederived", '<<"KVDM0"'), ("kmeans_tries_checked_fixed_point", '<<"KVKM"')):
+                V.extra[key] = V.extra.get(key, 0) + sum(1 for x in res.guidetree.prints if x.startswith(tag))
             for (ln, sid, items) in res.guidetree.divs:
                 V.divergence("guide tree model, batch %d line %d: %s" % (bi, ln, ",".join(sorted(items))))
         failed_g = set()
